@@ -31,15 +31,18 @@ def domain(tier):
         lo = codes.SUPPORTED[name].get('min_side', 1)
         thin = []
         for pos in range(dim):
-            for long_side in (10, 11, 12):
-                for other in (lo, lo + 1, lo + 2):
-                    size = tuple(long_side if j == pos else other for j in range(dim))
-                    if codes.in_family(name, size) and codes.qubit_count(name, size) <= (350 if tier == 'quick' else 700):
-                        thin.append(size)
-                        break
-                else:
-                    continue
-                break
+            # one lattice per group of lengths: two digits; just past 16 and 32 (where
+            # orderings that depend on hashing or on powers of two change)
+            for group in ((10, 11, 12), (17, 18), (33, 34)) if tier != 'quick' else ((10, 11, 12), (17, 18)):
+                for long_side in group:
+                    for other in (lo, lo + 1, lo + 2):
+                        size = tuple(long_side if j == pos else other for j in range(dim))
+                        if codes.in_family(name, size) and codes.qubit_count(name, size) <= (350 if tier == 'quick' else 700):
+                            thin.append(size)
+                            break
+                    else:
+                        continue
+                    break
         for size in dict.fromkeys(thin):
             vs = codes.deformation_variants(name)
             for dname, kw in (vs if tier != 'quick' else vs[:1] + vs[-1:]):
